@@ -1066,3 +1066,371 @@ Proof. split; [apply empty_state_inv|]. unfold HInv; cbn. intros h ip. split; [d
 
 Theorem full_inv_reachable c h : FullInv c (run c h empty_state).
 Proof. apply run_full, empty_state_full. Qed.
+
+(** * Corollaries *)
+
+Lemma NoDup_map_inj {A B} (f : A -> B) (L : list A) a b :
+  NoDup (map f L) -> In a L -> In b L -> f a = f b -> a = b.
+Proof.
+  induction L as [|x L IH]; cbn; intros N Ha Hb E; [tauto|].
+  apply NoDup_cons_iff in N as [N1 N2].
+  destruct Ha as [<-|Ha], Hb as [<-|Hb]; auto.
+  - exfalso. apply N1. rewrite E. apply in_map; auto.
+  - exfalso. apply N1. rewrite <- E. apply in_map; auto.
+Qed.
+
+(** One holder per address, one lease per client; hence also among the
+    leases the API reports as active at any instant. *)
+Lemma one_holder c s : Inv c s ->
+  forall l1 l2, In l1 (leases s) -> In l2 (leases s) ->
+  (l_ip l1 = l_ip l2 \/ l_mac l1 = l_mac l2) -> l1 = l2.
+Proof.
+  intros [[A B _ _] _ _] l1 l2 H1 H2 [E|E].
+  - eapply (NoDup_map_inj l_ip); eauto.
+  - eapply (NoDup_map_inj l_mac); eauto.
+Qed.
+
+Lemma active_in now s l : In l (active now s) -> In l (leases s).
+Proof. unfold active. rewrite filter_In. tauto. Qed.
+
+(** Dynamic leases never sit on the gateway or on a static lease's address. *)
+Lemma dynamic_addresses c s : valid_conf c -> Inv c s ->
+  forall l, In l (leases s) -> l_static l = false ->
+  in_pool c (l_ip l) = true /\ l_ip l <> c_gw c /\
+  (forall r, In r (leases s) -> l_static r = true -> l_ip r <> l_ip l).
+Proof.
+  intros (_ & Hgw & _) I l Hl Hs. pose proof I as [[A B C D] _ _].
+  split; [auto|split].
+  - intros E. rewrite <- E in Hgw. rewrite C in Hgw; auto. discriminate.
+  - intros r Hr Hrs E. assert (r = l) by (eapply one_holder; eauto). congruence.
+Qed.
+
+(** The client an operation speaks for. *)
+Definition op_mac (o : op) : option N :=
+  match o with
+  | ODiscover m | ORequest m _ _ _ _ | ODecline m _ _ | ORelease m _ _ => Some m
+  | _ => None
+  end.
+
+Lemma nth_error_update_nth {A} i (f : A -> A) L a :
+  nth_error L i = Some a -> nth_error (update_nth i f L) i = Some (f a).
+Proof.
+  revert i; induction L as [|x L IH]; destruct i; cbn; intros H; try discriminate.
+  - inversion H; auto.
+  - auto.
+Qed.
+
+Lemma reserve_at_mac c now mac s i :
+  snd (reserve c now mac s) = RsAt i ->
+  exists l, nth_error (leases (fst (reserve c now mac s))) i = Some l /\ l_mac l = mac.
+Proof.
+  unfold reserve. destruct (next_ip c s) as [ip|].
+  - destruct (add_lease c _ s) as [s'|] eqn:Ea; cbn; [|discriminate].
+    intros E; inversion E; subst. apply add_lease_some in Ea as (-> & _).
+    eexists. split; [rewrite nth_error_app2, Nat.sub_diag by lia; reflexivity|reflexivity].
+  - destruct (find_expired now (leases s)) as [[j l]|] eqn:Ef; cbn; [|discriminate].
+    intros E; inversion E; subst. apply find_index_some in Ef as [Ei _].
+    eexists. split; [apply nth_error_update_nth; eauto|reflexivity].
+Qed.
+
+Lemma commit_nth c now i host s l :
+  nth_error (leases s) i = Some l ->
+  exists l', nth_error (leases (commit c now i host s)) i = Some l' /\
+             l_ip l' = l_ip l /\ l_mac l' = l_mac l.
+Proof.
+  intros E. unfold commit. rewrite E. cbn.
+  eexists. split; [apply nth_error_update_nth; eauto|]. cbn. auto.
+Qed.
+
+(** Whoever is answered with an address holds the lease for it afterwards. *)
+Lemma reply_lease c s now o s' mt yi mac :
+  step c s now o = (s', ROk mt yi) -> yi <> 0 -> op_mac o = Some mac ->
+  exists l, In l (leases s') /\ l_mac l = mac /\ l_ip l = yi.
+Proof.
+  destruct o; cbn [step op_mac]; intros H Hyi Em; inversion Em; subst; clear Em.
+  - (* discover *)
+    unfold discover in H.
+    destruct (find_lease mac (leases s)) as [[i l]|] eqn:Ef.
+    + inversion H; subst. apply find_index_some in Ef as [Ei Ep]. cbn in Ep. apply N.eqb_eq in Ep.
+      exists l. cbn. split; [eapply nth_error_In; eauto|auto].
+    + pose proof (reserve_at_mac c now mac s) as R.
+      destruct (reserve c now mac s) as [s1 r]; cbn in *.
+      destruct r; inversion H; subst.
+      destruct (R _ eq_refl) as (l & El & Elm). exists l. cbn.
+      split; [eapply nth_error_In; eauto|]. split; auto. unfold ip_at. rewrite El. reflexivity.
+  - (* request *)
+    unfold request in H.
+    destruct (request_lease c mac sid reqip ciaddr s) as [r|[i l]] eqn:Er; [inversion H; subst|].
+    { exfalso. unfold request_lease in Er.
+      repeat match type of Er with
+             | context [if ?b then _ else _] => destruct b
+             | context [match ?o with Some _ => _ | None => _ end] => destruct o
+             | context [match check_lease ?a ?b ?c with _ => _ end] => destruct (check_lease a b c)
+             end; inversion Er. }
+    assert (Hl : nth_error (leases s) i = Some l /\ l_mac l = mac).
+    { unfold request_lease in Er.
+      assert (Hc : forall ip, check_lease mac ip (leases s) = ClAt i l ->
+                              nth_error (leases s) i = Some l /\ l_mac l = mac).
+      { intros ip. unfold check_lease.
+        destruct (find_lease mac (leases s)) as [[j x]|] eqn:Ef; [|discriminate].
+        destruct (l_ip x =? ip); [|discriminate]. intros E; inversion E; subst.
+        apply find_index_some in Ef as [? Ep]. cbn in Ep. apply N.eqb_eq in Ep. auto. }
+      repeat match type of Er with
+             | context [if ?b then _ else _] => destruct b
+             | context [match ?o with Some _ => _ | None => _ end] => destruct o
+             | context [match check_lease ?a ?b ?c with _ => _ end] =>
+                 let E := fresh "E" in destruct (check_lease a b c) eqn:E
+             end; inversion Er; subst; eauto. }
+    destruct Hl as [Ei Elm].
+    destruct (l_static l); inversion H; subst; cbn.
+    + exists l. split; [eapply nth_error_In; eauto|auto].
+    + destruct (commit_nth c now i host s l Ei) as (l' & El' & E1 & E2).
+      exists l'. split; [eapply nth_error_In; eauto|]. split; congruence.
+  - (* decline *)
+    unfold decline in H.
+    destruct (find_index _ (leases s)) as [[oi old]|]; [|inversion H; subst; congruence].
+    destruct (rm_dynamic_lease c (l_mac old) (l_ip old) (l_host old) s) as [s1 e].
+    destruct e; [inversion H|].
+    pose proof (reserve_at_mac c now mac s1) as R.
+    destruct (reserve c now mac s1) as [s2 r]; cbn in *.
+    destruct r; inversion H; subst; [congruence|].
+    destruct (R _ eq_refl) as (l & El & Elm).
+    destruct (commit_nth c now i (l_host old) s2 l El) as (l' & El' & E1 & E2).
+    exists l'. cbn. split; [eapply nth_error_In; eauto|]. split; [congruence|].
+    unfold ip_at. rewrite El. auto.
+  - (* release *)
+    unfold release in H.
+    destruct (find_index _ (leases s)) as [[oi old]|]; [|inversion H; subst; congruence].
+    destruct (rm_dynamic_lease c (l_mac old) (l_ip old) (l_host old) s) as [s1 e].
+    destruct e; inversion H; subst; congruence.
+Qed.
+
+(** A client with a reservation is only ever answered with the reserved address. *)
+Theorem reservation_respected c s now o s' mt yi mac r :
+  Inv c s -> step c s now o = (s', ROk mt yi) -> yi <> 0 -> op_mac o = Some mac ->
+  In r (leases s') -> l_static r = true -> l_mac r = mac -> yi = l_ip r.
+Proof.
+  intros I H Hyi Em Hr _ Hrm.
+  destruct (reply_lease _ _ _ _ _ _ _ _ H Hyi Em) as (l & Hl & Elm & <-).
+  assert (I' : Inv c s') by (replace s' with (fst (step c s now o)) by (rewrite H; auto); apply step_inv; auto).
+  f_equal. eapply one_holder; eauto. right; congruence.
+Qed.
+
+(** * Liveness of DISCOVER *)
+
+Lemma pool_offsets_in c ip : in_pool c ip = true -> In (ip - c_start c) (pool_offsets c).
+Proof.
+  rewrite in_pool_spec. intros [H1 H2]. unfold pool_offsets.
+  destruct (N.ltb_spec (c_end c) (c_start c)); [lia|].
+  apply in_map_iff. exists (N.to_nat (ip - c_start c)). split; [apply N2Nat.id|].
+  apply in_seq. lia.
+Qed.
+
+Lemma pool_offsets_pool c o : In o (pool_offsets c) -> in_pool c (c_start c + o) = true.
+Proof.
+  unfold pool_offsets. destruct (N.ltb_spec (c_end c) (c_start c)); [intros []|].
+  intros Hin. apply in_map_iff in Hin as (k & <- & Hk). apply in_seq in Hk.
+  apply in_pool_spec. lia.
+Qed.
+
+Lemma next_ip_some c s ip :
+  IdxInv c (leases s) (ix s) -> in_pool c ip = true -> ~ In ip (ips (leases s)) ->
+  exists ip', next_ip c s = Some ip' /\ in_pool c ip' = true.
+Proof.
+  intros [_ B] Hp Hn. unfold next_ip.
+  destruct (find _ (pool_offsets c)) as [o|] eqn:F.
+  - apply find_some in F as [Hin _]. cbn. eexists; split; eauto. apply pool_offsets_pool; auto.
+  - exfalso. pose proof (find_none _ _ F _ (pool_offsets_in c ip Hp)) as Hf. cbn in Hf.
+    apply negb_false_iff in Hf. apply B in Hf as [Hf _]. apply Hn.
+    apply in_pool_spec in Hp. replace ip with (c_start c + (ip - c_start c)) by lia. exact Hf.
+Qed.
+
+Lemma ip_at_snoc L l x d : ip_at (State (L ++ [l]) x d) (length L) = l_ip l.
+Proof. unfold ip_at. cbn [leases]. rewrite nth_error_app2, Nat.sub_diag by lia. reflexivity. Qed.
+
+(** A DISCOVER from a client without a lease, while some pool address is in
+    no lease, is answered with an OFFER of a pool address that was in no
+    lease, and that address is now reserved for the client. *)
+Theorem offer_liveness c s now mac ip :
+  Inv c s -> ~ In mac (macs (leases s)) ->
+  in_pool c ip = true -> ~ In ip (ips (leases s)) ->
+  exists ip' s', discover c now mac s = (s', ROk 2 ip') /\
+    in_pool c ip' = true /\ ~ In ip' (ips (leases s)) /\
+    exists l, In l (leases s') /\ l_ip l = ip' /\ l_mac l = mac.
+Proof.
+  intros I Hm Hp Hn. pose proof I as [_ X _].
+  destruct (next_ip_some c s ip X Hp Hn) as (ip' & En & Hp').
+  pose proof (next_ip_fresh c s ip' X En) as Hf.
+  assert (Ef : find_lease mac (leases s) = None).
+  { destruct (find_lease mac (leases s)) as [[i l]|] eqn:E; auto. exfalso.
+    apply find_index_some in E as [Ei Ep]. cbn in Ep. apply N.eqb_eq in Ep.
+    apply Hm. rewrite <- Ep. apply in_map. eapply nth_error_In; eauto. }
+  unfold discover, reserve. rewrite Ef, En.
+  unfold add_lease. cbn [l_static l_ip l_host is_nil negb andb]. rewrite Hp'. cbn [negb].
+  rewrite ip_at_snoc. cbn [l_ip].
+  exists ip'. eexists. split; [reflexivity|]. split; auto. split; auto.
+  cbn [leases store].
+  eexists. split; [apply in_app_iff; right; left; reflexivity|]. cbn. auto.
+Qed.
+
+(** * Persistence *)
+
+(** Re-validation on reload leaves the names of dynamic leases alone. *)
+Definition NamesStable (L : list lease) : Prop :=
+  forall l, In l L -> l_static l = false -> l_host l <> [] ->
+  valid_hostname_for_client (l_host l) (l_ip l) = l_host l.
+
+Definition range_ok (c : conf) (l : lease) : bool :=
+  if l_static l then in_subnet c (l_ip l) else in_pool c (l_ip l).
+
+Lemma add_lease_ok c l s :
+  range_ok c l = true -> (l_host l = [] \/ hidx (ix s) (l_host l) = None) ->
+  exists s', add_lease c l s = Some s'.
+Proof.
+  unfold range_ok, add_lease. intros R H.
+  destruct (l_static l); rewrite R; cbn [negb].
+  all: destruct H as [E | E]; rewrite E; cbn; eauto; destruct (is_nil (l_host l)); cbn; eauto.
+Qed.
+
+Definition UniqueNames (M : list (N * bytes)) : Prop :=
+  forall ip1 ip2 h, h <> [] -> In (ip1, h) M -> In (ip2, h) M -> ip1 = ip2.
+
+Lemma HInv_unique M hi : HInv M hi -> UniqueNames M.
+Proof.
+  intros H ip1 ip2 h Hh H1 H2.
+  assert (hi h = Some ip1) by (apply H; auto). assert (hi h = Some ip2) by (apply H; auto). congruence.
+Qed.
+
+Lemma load_fold_all c : forall d s,
+  HInv (names (leases s)) (hidx (ix s)) ->
+  (forall l, In l d -> reload_lease l = l /\ range_ok c l = true) ->
+  NoDup (ips (leases s ++ d)) -> UniqueNames (names (leases s ++ d)) ->
+  leases (fold_left (load_step c) d s) = leases s ++ d.
+Proof.
+  induction d as [|l d IH]; intros s H A N U; cbn; [rewrite app_nil_r; auto|].
+  destruct (A l (or_introl eq_refl)) as [Er Rk].
+  assert (Hc : l_host l = [] \/ hidx (ix s) (l_host l) = None).
+  { destruct (l_host l) as [|b t] eqn:Eh; auto. right.
+    destruct (hidx (ix s) (b :: t)) as [ip2|] eqn:E; auto. exfalso.
+    apply H in E as [Hne Hin].
+    assert (ip2 = l_ip l).
+    { apply (U ip2 (l_ip l) (b :: t)); auto; rewrite names_app, in_app_iff; auto.
+      right. left. rewrite Eh. reflexivity. }
+    subst ip2. rewrite ips_app in N. apply NoDup_remove_2 in N. apply N.
+    rewrite in_app_iff. left. change (l_ip l) with (fst (l_ip l, b :: t)).
+    rewrite <- names_fst. apply in_map. exact Hin. }
+  unfold load_step at 2. rewrite Er.
+  destruct (add_lease_ok c l s Rk Hc) as (s' & Ea). rewrite Ea.
+  destruct (add_lease_hidx _ _ _ _ Ea) as [_ Eh].
+  pose proof (add_lease_some _ _ _ _ Ea) as (EL & _).
+  rewrite IH.
+  - rewrite EL, <- app_assoc. reflexivity.
+  - rewrite Eh, EL, names_app. cbn. apply HInv_add; auto.
+  - intros; apply A; cbn; auto.
+  - rewrite EL, <- app_assoc. exact N.
+  - rewrite EL, <- app_assoc. exact U.
+Qed.
+
+Lemma names_db L : names (map db_lease L) = names L.
+Proof. unfold names. rewrite map_map. reflexivity. Qed.
+
+(** The file lists each lease of the table once (expiry at whole seconds). *)
+Lemma store_lists_each_once L : Permutation (store_list L) (map db_lease L).
+Proof. apply store_list_perm. Qed.
+
+(** Reloading what was stored restores every lease. *)
+Theorem load_store_leases c s :
+  FullInv c s -> NamesStable (leases s) ->
+  leases (load c (store_list (leases s))) = store_list (leases s).
+Proof.
+  intros [I H] St. unfold load.
+  rewrite load_fold_all; cbn [leases ix hidx empty_index app]; auto.
+  - unfold HInv; cbn. intros h ip. split; [discriminate|intros [_ []]].
+  - intros l Hl. eapply Permutation_in in Hl; [|apply store_list_perm].
+    apply in_map_iff in Hl as (l0 & <- & Hl0). pose proof I as [[_ _ C D] _ _].
+    split.
+    + unfold reload_lease. cbn [db_lease set_exp l_static l_host l_ip].
+      destruct (l_static l0) eqn:Es; cbn [negb andb]; auto.
+      destruct (is_nil (l_host l0)) eqn:En; cbn [negb]; auto.
+      rewrite (St l0 Hl0 Es); [destruct l0; reflexivity|].
+      intros E. rewrite E in En. discriminate.
+    + unfold range_ok. cbn. destruct (l_static l0) eqn:Es; [apply D|apply C]; auto.
+  - eapply Permutation_NoDup; [apply Permutation_sym, store_list_ips|]. apply I.
+  - apply HInv_unique with (hi := hidx (ix s)).
+    eapply HInv_mem; [|exact H]. intros p. split; intros Hp.
+    + eapply Permutation_in; [apply Permutation_sym, Permutation_map, store_list_perm|].
+      fold (names (map db_lease (leases s))). rewrite names_db. exact Hp.
+    + eapply Permutation_in in Hp; [|apply Permutation_map, store_list_perm].
+      fold (names (map db_lease (leases s))) in Hp. rewrite names_db in Hp. exact Hp.
+Qed.
+
+Lemma lease_by_ip_in L l : In l L -> exists d, lease_by_ip (l_ip l) L = Some d.
+Proof.
+  intros Hl. unfold lease_by_ip. destruct (find_index _ L) as [[i d]|] eqn:E; eauto.
+  pose proof (find_index_none _ _ E _ Hl) as F. cbn in F. rewrite N.eqb_refl in F. discriminate.
+Qed.
+
+Lemma host_by_ip_spec c s : Inv c s ->
+  forall ip h, host_by_ip s ip = h <-> (In (ip, h) (names (leases s)) \/ (h = [] /\ ~ In ip (ips (leases s)))).
+Proof.
+  intros [[A _ _ _] [X _] _] ip h. unfold host_by_ip.
+  destruct (iidx (ix s) ip) eqn:Ei.
+  - apply X in Ei. apply in_map_iff in Ei as (l & <- & Hl).
+    destruct (lease_by_ip_in _ _ Hl) as (d & Ed). rewrite Ed.
+    apply lease_by_ip_some in Ed as [Hd Edi].
+    assert (d = l) by (eapply (NoDup_map_inj l_ip); eauto). subst d.
+    split.
+    + intros <-. left. apply in_map_iff. exists l; auto.
+    + intros [Hin|[_ Hn]]; [|exfalso; apply Hn; apply in_map; auto].
+      apply in_map_iff in Hin as (l' & E & Hl'). inversion E.
+      assert (l' = l) by (eapply (NoDup_map_inj l_ip); eauto). congruence.
+  - assert (Hn : ~ In ip (ips (leases s))) by (intros Hin; apply X in Hin; congruence).
+    split.
+    + intros <-. auto.
+    + intros [Hin|[-> _]]; auto. exfalso. apply Hn.
+      change ip with (fst (ip, h)). rewrite <- names_fst. apply in_map; auto.
+Qed.
+
+(** Two tables with the same (address, name) pairs give the same DNS-facing answers. *)
+Lemma answers_determined c s s' :
+  FullInv c s -> FullInv c s' ->
+  (forall p, In p (names (leases s)) <-> In p (names (leases s'))) ->
+  (forall h, ip_by_host s h = ip_by_host s' h) /\ (forall ip, host_by_ip s ip = host_by_ip s' ip).
+Proof.
+  intros [I H] [I' H'] E. split.
+  - intros h. unfold ip_by_host.
+    destruct (hidx (ix s) h) as [ip|] eqn:E1.
+    + apply H in E1 as [? Hin]. apply E in Hin.
+      assert (E2 : hidx (ix s') h = Some ip) by (apply H'; auto). rewrite E2. reflexivity.
+    + destruct (hidx (ix s') h) as [ip|] eqn:E2; auto.
+      apply H' in E2 as [? Hin]. apply E in Hin.
+      assert (hidx (ix s) h = Some ip) by (apply H; auto). congruence.
+  - intros ip. symmetry. apply (host_by_ip_spec c s' I').
+    pose proof (proj1 (host_by_ip_spec c s I ip _) eq_refl) as [Hin|[Eh Hn]].
+    + left. apply E; auto.
+    + right. split; auto. intros Hin. apply Hn.
+      rewrite <- names_fst in *. apply in_map_iff in Hin as ([ip0 h0] & <- & Hp).
+      apply E in Hp. apply in_map_iff. exists (ip0, h0); auto.
+Qed.
+
+(** Restart after a store: the same leases (each once, expiry at whole
+    seconds) and the same HostByIP / IPByHost answers. *)
+Theorem persistence c s :
+  FullInv c s -> NamesStable (leases s) ->
+  let s' := restart c (store s) in
+  Permutation (leases s') (map db_lease (leases s)) /\
+  (forall h, ip_by_host s' h = ip_by_host s h) /\
+  (forall ip, host_by_ip s' ip = host_by_ip s ip).
+Proof.
+  intros F St s'. subst s'. unfold restart, store. cbn [disk].
+  pose proof (load_store_leases c s F St) as EL.
+  assert (F' : FullInv c (load c (store_list (leases s)))).
+  { apply load_full. apply store_list_disk. apply F. }
+  split; [rewrite EL; apply store_list_perm|].
+  apply (answers_determined c); auto.
+  intros p. rewrite EL. split; intros Hp.
+  - eapply Permutation_in in Hp; [|apply Permutation_map, store_list_perm].
+    fold (names (map db_lease (leases s))) in Hp. rewrite names_db in Hp. exact Hp.
+  - eapply Permutation_in; [apply Permutation_sym, Permutation_map, store_list_perm|].
+    fold (names (map db_lease (leases s))). rewrite names_db. exact Hp.
+Qed.
